@@ -16,7 +16,7 @@ import (
 
 // C16: directory listings are complete, duplicate-free, ordered, and page correctly.
 
-var c16sizes = []int{0, 1, 2, 3, 10, 300, 1200}
+var c16sizes = []int{0, 1, 2, 3, 10, 127, 128, 129, 256, 300, 1200}
 
 type c16case struct {
 	Subject string `json:"subject"`
@@ -60,7 +60,7 @@ func c16cases(env *core.Env) []c16case {
 	for _, s := range populatedSubjects {
 		for _, n := range c16sizes {
 			for _, dir := range []string{"d", "."} {
-				if dir == "." && (n == 300 || n == 1200) {
+				if dir == "." && n >= 127 {
 					continue
 				}
 				for i, seq := range c16pageSeqs(n) {
@@ -101,7 +101,7 @@ func init() {
 	core.Register(&core.Prop{
 		ID:    "C16",
 		Level: "exploration",
-		Rule: "directories with 0,1,2,3,10,300,1200 children of mixed kinds (names incl. upper/lower case, '_', '^', dots, spaces, backslash, non-ASCII; names sharing letters with the mount path) (ground truth = the children the harness created) are presented through mem, keyvalue over a plain Store, mount (children that are mount points), a file system mounted at a two-element mount point, a Sub view, the cache (full and minimal store), the tar FS (default and minimal destination) and os.FS; the by-name listing must contain each child once, sorted, agreeing with Stat; a directory handle is read with page-size sequences (1,2,N-1,N,N+1,10^9, MaxInt and MinInt also on a handle that has been read before, mixed with 0 and -1, random) and checked against the fs.ReadDirFile contract; listing a regular file must fail with ErrNotDir. " +
+		Rule: "directories with 0,1,2,3,10,127,128,129,256,300,1200 children of mixed kinds (names incl. upper/lower case, '_', '^', dots, spaces, backslash, non-ASCII; names sharing letters with the mount path) (ground truth = the children the harness created) are presented through mem, keyvalue over a plain Store, mount (children that are mount points), a file system mounted at a two-element mount point, a Sub view, a Sub view of a directory above mount points, the cache (full and minimal store), the tar FS (default and minimal destination) and os.FS; the by-name listing must contain each child once, sorted, agreeing with Stat; a directory handle is read with page-size sequences (1,2,N-1,N,N+1,10^9, MaxInt and MinInt also on a handle that has been read before, mixed with 0 and -1, random) and checked against the fs.ReadDirFile contract; listing a regular file must fail with ErrNotDir. " +
 			"Non-trivial: a paged session over a directory with >=2 children that took >=2 pages; distinct by (subject, size, page sequence)",
 		Assumptions: []string{"directories are not mutated between pages", "for a child that is a mount point only name and kind are compared"},
 		NumCases:    func(env *core.Env) int { return len(c16cases(env)) },
@@ -151,7 +151,7 @@ func c16run(env *core.Env, idx int) core.CaseResult {
 			c.dir = true
 		case 3:
 			c.dir = true
-			if cs.Subject == "mount" {
+			if cs.Subject == "mount" || cs.Subject == "sub-above-mount" {
 				c.name = "m" + c.name[1:]
 				c.mount = true
 			}
@@ -216,6 +216,7 @@ func c16run(env *core.Env, idx int) core.CaseResult {
 	} else {
 		seen := map[string]int{}
 		prev := ""
+		mounted := 0
 		for i, e := range entries {
 			seen[e.Name()]++
 			if i > 0 && e.Name() < prev {
@@ -231,6 +232,14 @@ func c16run(env *core.Env, idx int) core.CaseResult {
 				bad("byname", "kind", fmt.Sprintf("entry %q: IsDir=%v Type=%v, child is dir=%v", e.Name(), e.IsDir(), e.Type(), c.dir))
 			}
 			if c.mount {
+				// the directory below a mount point lists what is mounted there (one file), through every composition
+				if mounted < 3 {
+					mounted++
+					inner, ierr := hackpadfs.ReadDir(sub.fs, prefix+e.Name())
+					if ierr != nil || len(inner) != 1 || inner[0].Name() != "in-mount" {
+						bad("byname", "mountpoint-content", fmt.Sprintf("listing the mount point %q returned %s (err %v), the mounted file system holds exactly in-mount", e.Name(), fsx.EntriesString(inner), ierr))
+					}
+				}
 				continue
 			}
 			if i%17 == 0 || len(entries) <= 12 { // Info vs Stat of the child
